@@ -143,6 +143,10 @@ class World:
         else:
             r = (False, self.tok(c.err(p, rho)), self.num(c.fpos(p, rho)))
         self.log.append((f'child{k}', pos, r[0], r[2]))
+        # the model constrains the child only where the symbolic path called it: elsewhere its table may be anything.  A native
+        # call that lands on an answer outside the child's own contract says nothing about the fragment.
+        if not (0 <= r[2] <= self.N) or (c.a_s and not ok) or (not ok and not c.cps and r[2] != pos) or (not ok and not self.truth(is_err(c.err(p, rho)))):
+            raise Diverged(f'the counter-model answers child{k} at {pos} outside the child contract (unconstrained point of the model)')
         return r
 
     def request(self, f, pos):
